@@ -10,8 +10,8 @@ from impl import instance_line
 
 class Check(PropertyCheck):
     ID = "C13"
-    LEAN_MODULE = "JobShopProofs.LateReward"
-    THEOREMS = ["JS.C13_makespan_sum", "JS.C13_idle_sum", "JS.makespan_dispatch", "JS.C13_world", "JS.C13_late_reward", "JS.C13_swapped_reward"]
+    LEAN_MODULE = "JobShopProofs.MultiEnvRewards"
+    THEOREMS = ["JS.C13_makespan_sum", "JS.C13_idle_sum", "JS.makespan_dispatch", "JS.C13_world", "JS.C13_late_reward", "JS.C13_swapped_reward", "JS.C13_env", "JS.C13_multi_env", "JS.C13_multi_env_general", "JS.C18_multi_step_reward"]
     RULE = ("random instance (flexible machine choices, zero durations, recirculation) x random history with invalid "
             "requests and resets, MakespanReward and IdleTimeReward subscribed from the start (in random order, possibly "
             "with other observers); rewards compared with the Lean model after every event; oracle on the real observers: "
